@@ -896,9 +896,14 @@ func (val Value) Index(key Value) Value {
 
 		keyStr := key.v.(string)
 
+		elem, exists := val.v.(map[string]interface{})[keyStr]
+		if !exists {
+			panic("map has no element with the given key")
+		}
+
 		return Value{
 			ty: elty,
-			v:  val.v.(map[string]interface{})[keyStr],
+			v:  elem,
 		}
 	case val.Type().IsTupleType():
 		if key.Type() == DynamicPseudoType {
